@@ -292,6 +292,10 @@ func mutateHeader(r *rand.Rand, data []byte) []byte {
 
 func mutate(r *rand.Rand, format string, chunks [][]byte) []byte {
 	data := join(chunks)
+	if (format == "uripost" || format == "raw") && r.Intn(14) == 0 {
+		// the last entry keeps its size line and loses its whole body
+		return cutAfterSizeLine(r, chunks, r.Intn(2) == 0)
+	}
 	switch r.Intn(12) {
 	case 0: // truncate
 		if len(data) > 0 {
@@ -546,6 +550,15 @@ func scnCase(r *rand.Rand) string {
 	if r.Intn(6) == 0 {
 		reqs = append([]string{[]string{"sleep(10)", "sleep", "sleep()"}[r.Intn(3)]}, reqs...)
 	}
+	// a sleep that is not the first item but still follows no request: the items before it are repeated zero (or fewer) times
+	if r.Intn(8) == 0 && len(defs) > 0 {
+		var pre []string
+		for k := 0; k <= r.Intn(3); k++ {
+			pre = append(pre, defs[r.Intn(len(defs))]+[]string{"(0)", "(-3)", "(0, 50)", "( 0 )", "(-1,10)"}[r.Intn(5)])
+		}
+		pre = append(pre, []string{"sleep(100)", "sleep", "sleep(0)"}[r.Intn(3)])
+		reqs = append(pre, reqs...)
+	}
 	hs := make([]string, len(reqs))
 	for i, q := range reqs {
 		hs[i] = hex.EncodeToString([]byte(q))
@@ -675,8 +688,16 @@ func gen(r *rand.Rand, tier string) []string {
 	var out []string
 	for i := 0; i < n; i++ {
 		switch x := r.Intn(100); {
-		case x < 50:
+		case x < 40:
 			out = append(out, ammoCase(r))
+		case x < 43:
+			out = append(out, multipassCase(r))
+		case x < 46:
+			out = append(out, genjsonCase(r))
+		case x < 49:
+			out = append(out, pfxCase(r))
+		case x < 50:
+			out = append(out, confCase(r))
 		case x < 58:
 			out = append(out, "k=psf hex="+hex.EncodeToString([]byte(randFuncString(r))))
 		case x < 64:
@@ -704,6 +725,13 @@ func gen(r *rand.Rand, tier string) []string {
 		default:
 			out = append(out, randIntCase(r))
 		}
+	}
+	nBig := 3
+	if tier == "thorough" {
+		nBig = 60
+	}
+	for i := 0; i < nBig; i++ {
+		out = append(out, bigCase(r))
 	}
 	for i := 0; i < nCli; i++ {
 		out = append(out, "k=cli pools="+cliShapes[r.Intn(len(cliShapes))])
